@@ -10,25 +10,25 @@ def gen_range(rng, n, allow_bad=True):
     k = rng.below(100)
     if n == 0:
         n = 1
-    if k < 45 or not allow_bad:
+    if k < 72 or not allow_bad:
         a = rng.below(n)
         b = a + rng.below(n - a)
         return "%d-%d" % (a, b)
-    if k < 55:
+    if k < 76:
         a = rng.below(n)
         return "%d-%d" % (a, a)
-    if k < 63:
+    if k < 80:
         return "%d-%d" % (rng.below(n), n - 1)
-    if k < 71:
+    if k < 84:
         return "%d-%d" % (rng.below(n), n)            # end == N: must be an error
-    if k < 78:
+    if k < 88:
         b = rng.below(n)
         return "%d-%d" % (b + 1 + rng.below(3), b)    # start > end
-    if k < 84:
+    if k < 91:
         return "0-%d" % (n + rng.below(5))
-    if k < 88:
-        return rng.choice(["-%d" % rng.below(n), "%d-" % rng.below(n), "a-b", "1-2-3", "+1-2", "x1-2", "0-00"])
     if k < 94:
+        return rng.choice(["-%d" % rng.below(n), "%d-" % rng.below(n), "a-b", "1-2-3", "+1-2", "x1-2", "0-00"])
+    if k < 97:
         return "%d-%d" % (0, n - 1)
     return "%d-%d" % (rng.below(n + 2), rng.below(n + 2))
 
